@@ -3,7 +3,6 @@ package middleware
 import (
 	"net"
 	"net/http"
-	"net/url"
 	"strings"
 
 	"github.com/justinas/alice"
@@ -36,7 +35,8 @@ func redirectToHTTPS(httpsPort string, next http.Handler) http.Handler {
 		}
 
 		// Copy the request URL
-		targetURL, _ := url.Parse(req.URL.String())
+		u := *req.URL
+		targetURL := &u
 		// Set the scheme to HTTPS
 		targetURL.Scheme = httpsScheme
 
